@@ -3,25 +3,384 @@
 package fsmworld
 
 import (
+	"encoding/json"
+	"errors"
+	"fmt"
+	"strings"
+	"time"
+
+	"github.com/hashicorp/serf/coordinate"
+	"google.golang.org/protobuf/types/known/timestamppb"
+
+	"github.com/hashicorp/consul/acl"
+	"github.com/hashicorp/consul/agent/consul/state"
 	"github.com/hashicorp/consul/agent/structs"
+	"github.com/hashicorp/consul/proto/private/pbpeering"
 )
+
+func PolicyUUID(n int) string { return fmt.Sprintf("b01c1000-0000-4000-8000-%012x", n) }
+func RoleUUID(n int) string   { return fmt.Sprintf("401e1000-0000-4000-8000-%012x", n) }
+func TokenUUID(n int) string  { return fmt.Sprintf("70ce1000-0000-4000-8000-%012x", n) }
+func SecretUUID(n int) string { return fmt.Sprintf("5ec4e700-0000-4000-8000-%012x", n) }
+func RuleUUID(n int) string   { return fmt.Sprintf("41e00000-0000-4000-8000-%012x", n) }
+func PeerUUID(n int) string   { return fmt.Sprintf("bee40000-0000-4000-8000-%012x", n) }
+func IxnUUID(n int) string    { return fmt.Sprintf("1e7e0000-0000-4000-8000-%012x", n) }
+
+var defaultEntMeta = structs.DefaultEnterpriseMetaInDefaultPartition
+
+// DecodeConfigEntryJSON turns the plan's JSON text into a normalised, validated
+// config entry exactly as the HTTP+RPC endpoints would.
+func DecodeConfigEntryJSON(text string) (structs.ConfigEntry, error) {
+	var raw map[string]interface{}
+	if err := json.Unmarshal([]byte(text), &raw); err != nil {
+		return nil, err
+	}
+	return structs.DecodeConfigEntry(raw)
+}
 
 // doExt handles the long tail of command types (prepared queries, ACL, config
 // entries, CA, peering, ...). Returns false for an unknown op.
 func (c *Cluster) doExt(s Step, out *Outcome) bool {
+	st := c.L.State()
 	switch s.Op {
 	case "pq.set":
 		q := &structs.PreparedQuery{ID: s.ID, Name: s.Name, Session: s.Sess, Service: structs.ServiceQuery{Service: s.Svc}}
 		op := structs.PreparedQueryCreate
-		if _, existing, _ := c.L.State().PreparedQueryGet(nil, s.ID); existing != nil {
+		if _, existing, _ := st.PreparedQueryGet(nil, s.ID); existing != nil {
 			op = structs.PreparedQueryUpdate
 		}
 		c.apply(structs.PreparedQueryRequestType, &structs.PreparedQueryRequest{Datacenter: "dc1", Op: op, Query: q}, s, out)
 	case "pq.delete":
 		c.apply(structs.PreparedQueryRequestType, &structs.PreparedQueryRequest{Datacenter: "dc1", Op: structs.PreparedQueryDelete,
 			Query: &structs.PreparedQuery{ID: s.ID}}, s, out)
+
+	case "coord":
+		var cs structs.Coordinates
+		for i, n := range s.List {
+			co := coordinate.NewCoordinate(coordinate.DefaultConfig())
+			co.Vec[0] = float64(s.N+int64(i)) / 1000
+			co.Height = 0.001 * float64(1+i)
+			cs = append(cs, &structs.Coordinate{Node: n, Segment: s.Text, Coord: co})
+		}
+		c.apply(structs.CoordinateBatchUpdateType, cs, s, out)
+
+	// ----- ACL
+	case "acl.policy.set":
+		p := &structs.ACLPolicy{ID: s.ID, Name: s.Name, Description: s.Text2, Rules: s.Text, Datacenters: s.List}
+		p.EnterpriseMeta = *defaultEntMeta()
+		p.SetHash(true)
+		c.apply(structs.ACLPolicySetRequestType, &structs.ACLPolicyBatchSetRequest{Policies: structs.ACLPolicies{p}}, s, out)
+	case "acl.policy.delete":
+		c.apply(structs.ACLPolicyDeleteRequestType, &structs.ACLPolicyBatchDeleteRequest{PolicyIDs: append([]string{s.ID}, s.List...)}, s, out)
+	case "acl.role.set":
+		r := &structs.ACLRole{ID: s.ID, Name: s.Name, Description: s.Text2}
+		for _, p := range s.List {
+			r.Policies = append(r.Policies, structs.ACLRolePolicyLink{ID: p})
+		}
+		if s.Svc != "" {
+			r.ServiceIdentities = append(r.ServiceIdentities, &structs.ACLServiceIdentity{ServiceName: s.Svc})
+		}
+		r.EnterpriseMeta = *defaultEntMeta()
+		r.SetHash(true)
+		c.apply(structs.ACLRoleSetRequestType, &structs.ACLRoleBatchSetRequest{Roles: structs.ACLRoles{r}, AllowMissingLinks: s.Flag}, s, out)
+	case "acl.role.delete":
+		c.apply(structs.ACLRoleDeleteRequestType, &structs.ACLRoleBatchDeleteRequest{RoleIDs: []string{s.ID}}, s, out)
+	case "acl.token.set":
+		t := &structs.ACLToken{AccessorID: s.ID, SecretID: s.Text, Description: s.Text2, Local: s.Flag2, CreateTime: time.Now().Round(0)}
+		for _, p := range s.List {
+			t.Policies = append(t.Policies, structs.ACLTokenPolicyLink{ID: p})
+		}
+		for _, r := range s.List2 {
+			t.Roles = append(t.Roles, structs.ACLTokenRoleLink{ID: r})
+		}
+		if s.Svc != "" {
+			t.ServiceIdentities = append(t.ServiceIdentities, &structs.ACLServiceIdentity{ServiceName: s.Svc})
+		}
+		if s.Node != "" {
+			t.NodeIdentities = append(t.NodeIdentities, &structs.ACLNodeIdentity{NodeName: s.Node, Datacenter: "dc1"})
+		}
+		if s.N > 0 {
+			exp := time.Now().Add(time.Duration(s.N) * time.Second).Round(0)
+			t.ExpirationTime = &exp
+		}
+		if s.Name != "" {
+			t.AuthMethod = s.Name
+		}
+		t.EnterpriseMeta = *defaultEntMeta()
+		if s.Idx != "" {
+			var cur uint64
+			if _, ex, _ := st.ACLTokenGetByAccessor(nil, s.ID, nil); ex != nil {
+				cur = ex.ModifyIndex
+			}
+			t.ModifyIndex = resolveIdx(s.Idx, cur)
+		}
+		t.SetHash(true)
+		c.apply(structs.ACLTokenSetRequestType, &structs.ACLTokenBatchSetRequest{Tokens: structs.ACLTokens{t}, CAS: s.Idx != "", AllowMissingLinks: s.Flag}, s, out)
+	case "acl.token.delete":
+		c.apply(structs.ACLTokenDeleteRequestType, &structs.ACLTokenBatchDeleteRequest{TokenIDs: []string{s.ID}}, s, out)
+	case "acl.bootstrap":
+		t := structs.ACLToken{AccessorID: s.ID, SecretID: s.Text, Description: "Bootstrap Token (Global Management)",
+			Policies: []structs.ACLTokenPolicyLink{{ID: structs.ACLPolicyGlobalManagementID}}, CreateTime: time.Now().Round(0)}
+		t.EnterpriseMeta = *defaultEntMeta()
+		t.SetHash(true)
+		var reset uint64
+		if s.Idx == "cur" {
+			_, reset, _ = st.CanBootstrapACLToken()
+		} else {
+			reset = resolveIdx(s.Idx, 0)
+		}
+		c.apply(structs.ACLBootstrapRequestType, &structs.ACLTokenBootstrapRequest{Token: t, ResetIndex: reset}, s, out)
+	case "acl.method.set":
+		m := &structs.ACLAuthMethod{Name: s.Name, Type: "jwt", Description: s.Text2, DisplayName: s.Text,
+			Config: map[string]interface{}{"BoundIssuer": "https://issuer/" + s.Text}}
+		if s.N > 0 {
+			m.MaxTokenTTL = time.Duration(s.N) * time.Second
+		}
+		m.EnterpriseMeta = *defaultEntMeta()
+		c.apply(structs.ACLAuthMethodSetRequestType, &structs.ACLAuthMethodBatchSetRequest{AuthMethods: structs.ACLAuthMethods{m}}, s, out)
+	case "acl.method.delete":
+		req := &structs.ACLAuthMethodBatchDeleteRequest{AuthMethodNames: []string{s.Name}}
+		req.EnterpriseMeta = *defaultEntMeta()
+		c.apply(structs.ACLAuthMethodDeleteRequestType, req, s, out)
+	case "acl.rule.set":
+		r := &structs.ACLBindingRule{ID: s.ID, AuthMethod: s.Name, Description: s.Text2, BindType: structs.BindingRuleBindTypeService, BindName: s.Text, Selector: ""}
+		r.EnterpriseMeta = *defaultEntMeta()
+		c.apply(structs.ACLBindingRuleSetRequestType, &structs.ACLBindingRuleBatchSetRequest{BindingRules: structs.ACLBindingRules{r}}, s, out)
+	case "acl.rule.delete":
+		c.apply(structs.ACLBindingRuleDeleteRequestType, &structs.ACLBindingRuleBatchDeleteRequest{BindingRuleIDs: []string{s.ID}}, s, out)
+
+	// ----- config entries
+	case "ce.upsert", "ce.upsert-cas", "ce.delete", "ce.delete-cas", "ce.upsert-status-cas":
+		entry, err := DecodeConfigEntryJSON(s.Text)
+		if err != nil {
+			out.Rejected, out.Err = true, err
+			return true
+		}
+		if err := entry.Normalize(); err != nil {
+			out.Rejected, out.Err = true, err
+			return true
+		}
+		isDelete := strings.HasPrefix(s.Op, "ce.delete")
+		if !isDelete {
+			if err := entry.Validate(); err != nil {
+				c.Run.Hit("probe.config-entry-rejected-by-validate")
+				out.Rejected, out.Err = true, err
+				return true
+			}
+		}
+		var cur uint64
+		if _, ex, _ := st.ConfigEntry(nil, entry.GetKind(), entry.GetName(), entry.GetEnterpriseMeta()); ex != nil {
+			cur = ex.GetRaftIndex().ModifyIndex
+		}
+		op := map[string]structs.ConfigEntryOp{"ce.upsert": structs.ConfigEntryUpsert, "ce.upsert-cas": structs.ConfigEntryUpsertCAS,
+			"ce.delete": structs.ConfigEntryDelete, "ce.delete-cas": structs.ConfigEntryDeleteCAS, "ce.upsert-status-cas": structs.ConfigEntryUpsertWithStatusCAS}[s.Op]
+		if op != structs.ConfigEntryUpsert && op != structs.ConfigEntryDelete {
+			entry.GetRaftIndex().ModifyIndex = resolveIdx(s.Idx, cur)
+		}
+		c.apply(structs.ConfigEntryRequestType, &structs.ConfigEntryRequest{Op: op, Datacenter: "dc1", Entry: entry}, s, out)
+
+	// ----- intentions (legacy table and mutations of service-intentions entries)
+	case "ixn.legacy.set", "ixn.legacy.delete", "ixn.legacy.delete-all":
+		ixn := &structs.Intention{ID: s.ID, SourceNS: "default", SourceName: s.Name, DestinationNS: "default", DestinationName: s.Svc,
+			SourcePartition: "default", DestinationPartition: "default",
+			SourceType: structs.IntentionSourceConsul, Action: structs.IntentionAction(s.Text), Description: s.Text2,
+			CreatedAt: time.Now().UTC().Round(0), UpdatedAt: time.Now().UTC().Round(0)}
+		ixn.UpdatePrecedence()
+		//nolint:staticcheck
+		ixn.SetHash()
+		op := structs.IntentionOpCreate
+		switch s.Op {
+		case "ixn.legacy.delete":
+			op = structs.IntentionOpDelete
+		case "ixn.legacy.delete-all":
+			op = structs.IntentionOpDeleteAll
+		default:
+			if _, _, ex, _ := st.IntentionGet(nil, s.ID); ex != nil {
+				op = structs.IntentionOpUpdate
+			}
+		}
+		c.apply(structs.IntentionRequestType, &structs.IntentionRequest{Datacenter: "dc1", Op: op, Intention: ixn}, s, out)
+	case "ixn.mut.upsert", "ixn.mut.delete":
+		mut := &structs.IntentionMutation{
+			Destination: structs.NewServiceName(s.Svc, nil),
+			Source:      structs.NewServiceName(s.Name, nil),
+		}
+		op := structs.IntentionOpDelete
+		if s.Op == "ixn.mut.upsert" {
+			op = structs.IntentionOpUpsert
+			mut.Value = &structs.SourceIntention{Name: s.Name, Action: structs.IntentionAction(s.Text), Type: structs.IntentionSourceConsul, Description: s.Text2}
+			mut.Value.EnterpriseMeta = *defaultEntMeta()
+		}
+		if s.ID != "" {
+			// by legacy ID (create/update/delete through the legacy API against config entries)
+			mut = &structs.IntentionMutation{ID: s.ID, Value: mut.Value}
+			if s.Op == "ixn.mut.upsert" {
+				op = structs.IntentionOpUpdate
+				mut.Destination = structs.NewServiceName(s.Svc, nil)
+				mut.Value.LegacyID = s.ID
+			}
+		}
+		c.apply(structs.IntentionRequestType, &structs.IntentionRequest{Datacenter: "dc1", Op: op, Mutation: mut}, s, out)
+
+	// ----- connect CA
+	case "ca.set-config":
+		var cur uint64
+		if _, cfg, _ := st.CAConfig(nil); cfg != nil {
+			cur = cfg.ModifyIndex
+		}
+		cfg := &structs.CAConfiguration{ClusterID: "11111111-2222-3333-4444-555555555555", Provider: "consul",
+			Config: map[string]interface{}{"LeafCertTTL": s.Text, "RootCertTTL": "87600h"}}
+		cfg.ModifyIndex = resolveIdx(s.Idx, cur)
+		c.apply(structs.ConnectCARequestType, &structs.CARequest{Op: structs.CAOpSetConfig, Datacenter: "dc1", Config: cfg}, s, out)
+	case "ca.set-roots", "ca.set-roots-config":
+		ridx, _, _ := st.CARoots(nil)
+		var roots []*structs.CARoot
+		for i, id := range s.List {
+			roots = append(roots, &structs.CARoot{ID: id, Name: "root " + id, RootCert: "-----BEGIN CERTIFICATE-----\n" + id + "\n-----END CERTIFICATE-----\n",
+				SigningKeyID: "key-" + id, Active: int64(i) == s.N || (s.Flag && i == 0),
+				NotBefore: time.Unix(946684800, 0).UTC(), NotAfter: time.Unix(1946684800, 0).UTC()})
+		}
+		req := &structs.CARequest{Op: structs.CAOpSetRoots, Datacenter: "dc1", Index: resolveIdx(s.Idx, ridx), Roots: roots}
+		if s.Op == "ca.set-roots-config" {
+			req.Op = structs.CAOpSetRootsAndConfig
+			var cur uint64
+			if _, cfg, _ := st.CAConfig(nil); cfg != nil {
+				cur = cfg.ModifyIndex
+			}
+			req.Config = &structs.CAConfiguration{ClusterID: "11111111-2222-3333-4444-555555555555", Provider: "consul",
+				Config: map[string]interface{}{"LeafCertTTL": s.Text}}
+			req.Config.ModifyIndex = resolveIdx(s.Text2, cur)
+		}
+		c.apply(structs.ConnectCARequestType, req, s, out)
+	case "ca.provider-state":
+		c.apply(structs.ConnectCARequestType, &structs.CARequest{Op: structs.CAOpSetProviderState, Datacenter: "dc1",
+			ProviderState: &structs.CAConsulProviderState{ID: s.ID, PrivateKey: "key " + s.Text, RootCert: "cert " + s.Text}}, s, out)
+	case "ca.delete-provider-state":
+		c.apply(structs.ConnectCARequestType, &structs.CARequest{Op: structs.CAOpDeleteProviderState, Datacenter: "dc1",
+			ProviderState: &structs.CAConsulProviderState{ID: s.ID}}, s, out)
+	case "ca.incr-serial":
+		c.apply(structs.ConnectCARequestType, &structs.CARequest{Op: structs.CAOpIncrementProviderSerialNumber, Datacenter: "dc1"}, s, out)
+	case "ca.leaf-index":
+		c.apply(structs.ConnectCALeafRequestType, &structs.CALeafRequest{Op: structs.CALeafOpIncrementIndex, Datacenter: "dc1"}, s, out)
+
+	// ----- peering
+	case "peer.write":
+		p := &pbpeering.Peering{ID: s.ID, Name: s.Name, Partition: "", State: pbpeering.PeeringState(s.N), PeerID: s.Text,
+			PeerServerName: "server.dc2.consul", PeerServerAddresses: s.List}
+		if s.Flag {
+			p.DeletedAt = timestamppb.New(time.Now().UTC().Round(0))
+			p.State = pbpeering.PeeringState_DELETING
+		}
+		if s.Text2 != "" {
+			p.Meta = map[string]string{"env": s.Text2}
+		}
+		req := &pbpeering.PeeringWriteRequest{Peering: p}
+		if s.Flag2 {
+			req.SecretsRequest = &pbpeering.SecretsWriteRequest{PeerID: s.ID, Request: &pbpeering.SecretsWriteRequest_GenerateToken{
+				GenerateToken: &pbpeering.SecretsWriteRequest_GenerateTokenRequest{EstablishmentSecret: SecretUUID(int(s.M) + 100)}}}
+		}
+		c.applyProto(structs.PeeringWriteType, req, s, out)
+	case "peer.delete":
+		c.applyProto(structs.PeeringDeleteType, &pbpeering.PeeringDeleteRequest{Name: s.Name}, s, out)
+	case "peer.terminate":
+		c.applyProto(structs.PeeringTerminateByIDType, &pbpeering.PeeringTerminateByIDRequest{ID: s.ID}, s, out)
+	case "peer.bundle.write":
+		c.applyProto(structs.PeeringTrustBundleWriteType, &pbpeering.PeeringTrustBundleWriteRequest{PeeringTrustBundle: &pbpeering.PeeringTrustBundle{
+			TrustDomain: s.Text + ".consul", PeerName: s.Name, RootPEMs: s.List}}, s, out)
+	case "peer.bundle.delete":
+		c.applyProto(structs.PeeringTrustBundleDeleteType, &pbpeering.PeeringTrustBundleDeleteRequest{Name: s.Name}, s, out)
+	case "peer.secrets":
+		req := &pbpeering.SecretsWriteRequest{PeerID: s.ID}
+		switch s.Text {
+		case "exchange":
+			req.Request = &pbpeering.SecretsWriteRequest_ExchangeSecret{ExchangeSecret: &pbpeering.SecretsWriteRequest_ExchangeSecretRequest{
+				EstablishmentSecret: SecretUUID(int(s.M) + 100), PendingStreamSecret: SecretUUID(int(s.M) + 200)}}
+		case "promote":
+			req.Request = &pbpeering.SecretsWriteRequest_PromotePending{PromotePending: &pbpeering.SecretsWriteRequest_PromotePendingRequest{
+				ActiveStreamSecret: SecretUUID(int(s.M) + 200)}}
+		case "establish":
+			req.Request = &pbpeering.SecretsWriteRequest_Establish{Establish: &pbpeering.SecretsWriteRequest_EstablishRequest{
+				ActiveStreamSecret: SecretUUID(int(s.M) + 300)}}
+		default:
+			req.Request = &pbpeering.SecretsWriteRequest_GenerateToken{GenerateToken: &pbpeering.SecretsWriteRequest_GenerateTokenRequest{
+				EstablishmentSecret: SecretUUID(int(s.M) + 100)}}
+		}
+		c.applyProto(structs.PeeringSecretsWriteType, req, s, out)
+
+	// ----- misc
+	case "sysmeta.set", "sysmeta.delete":
+		op := structs.SystemMetadataUpsert
+		if s.Op == "sysmeta.delete" {
+			op = structs.SystemMetadataDelete
+		}
+		c.apply(structs.SystemMetadataRequestType, &structs.SystemMetadataRequest{Datacenter: "dc1", Op: op,
+			Entry: &structs.SystemMetadataEntry{Key: s.Key, Value: s.Val}}, s, out)
+	case "fedstate.set", "fedstate.delete":
+		op := structs.FederationStateUpsert
+		fs := &structs.FederationState{Datacenter: s.Name}
+		if s.Op == "fedstate.delete" {
+			op = structs.FederationStateDelete
+		} else {
+			fs.UpdatedAt = time.Now().UTC().Round(0)
+			fs.PrimaryModifyIndex = uint64(s.N)
+			for _, n := range s.List {
+				fs.MeshGateways = append(fs.MeshGateways, structs.CheckServiceNode{
+					Node:    &structs.Node{Node: n, Address: "10.9.0.1", Datacenter: s.Name},
+					Service: &structs.NodeService{Kind: structs.ServiceKindMeshGateway, ID: "mgw", Service: "mgw", Port: 8443},
+				})
+			}
+		}
+		c.apply(structs.FederationStateRequestType, &structs.FederationStateRequest{Datacenter: "dc1", Op: op, State: fs}, s, out)
+	case "autopilot":
+		_, curCfg, _ := st.AutopilotConfig()
+		var cur uint64
+		if curCfg != nil {
+			cur = curCfg.ModifyIndex
+		}
+		cfg := structs.AutopilotConfig{CleanupDeadServers: s.Flag2, MaxTrailingLogs: uint64(s.N), LastContactThreshold: 200 * time.Millisecond,
+			ServerStabilizationTime: 10 * time.Second}
+		cfg.ModifyIndex = resolveIdx(s.Idx, cur)
+		c.apply(structs.AutopilotRequestType, &structs.AutopilotSetConfigRequest{Datacenter: "dc1", Config: cfg, CAS: s.Flag}, s, out)
+	case "featuregate":
+		_, pol, stt, _ := st.FeatureGatePolicyAndStatus(nil)
+		var pi, si uint64
+		if pol != nil {
+			pi = pol.ModifyIndex
+		}
+		if stt != nil {
+			si = stt.ModifyIndex
+		}
+		req := &structs.FeatureGateUpdateRequest{ExpectedPolicyIndex: resolveIdx(s.Idx, pi), ExpectedStatusIndex: resolveIdx(s.Text2, si)}
+		if s.Flag {
+			req.Policy = &structs.FeatureGatePolicy{Settings: map[string]structs.FeatureGateSetting{s.Name: {Enabled: s.Flag2, Source: structs.FeatureGateSourceOperator}}}
+		}
+		if !s.NoChecks { // NoChecks reused: omit status (invalid request)
+			req.Status = &structs.FeatureGateStatus{RegistryDigest: s.Text, Features: map[string]structs.ResolvedFeatureGate{
+				s.Name: {DesiredEnabled: s.Flag2, EffectiveEnabled: s.Flag2, Eligible: true, Source: "operator"}}}
+		}
+		c.apply(structs.FeatureGateRequestType, req, s, out)
+	case "vip.manual":
+		req := &state.ServiceVirtualIP{Service: structs.PeeredServiceName{ServiceName: structs.NewServiceName(s.Svc, nil), Peer: s.Peer}, ManualIPs: s.List}
+		c.apply(structs.UpdateVirtualIPRequestType, req, s, out)
 	default:
 		return false
 	}
 	return true
 }
+
+func (c *Cluster) applyProto(t structs.MessageType, msg any, s Step, out *Outcome) {
+	c.curFault, c.curGap, c.curDesc = s.Fault, s.Gap, s.Short()
+	buf, err := structs.EncodeProtoInterface(t, msg)
+	if err != nil {
+		out.Rejected, out.Err = true, err
+		return
+	}
+	resp, err := c.hookRaftApply(t, buf)
+	out.Err = err
+	if err == nil {
+		out.Resp = resp
+	}
+}
+
+var _ = acl.WildcardName
+var _ = errors.New
